@@ -41,6 +41,7 @@ type OpE struct {
 	Variant int    `json:"variant,omitempty"` // callback: which kind among the applicable ones
 	AnyKind bool   `json:"anykind,omitempty"` // callback: kind drawn from all kinds instead of those of the id's command
 	Replay  bool   `json:"replay,omitempty"`  // callback: send the identical package a second time
+	Force   string `json:"force,omitempty"`   // callback: this kind (by name) instead of Variant/AnyKind
 	Text    string `json:"text,omitempty"`
 	N       uint32 `json:"n,omitempty"`
 }
@@ -499,7 +500,9 @@ func checkE(c CaseE) (viol *core.Violation) {
 				id = 0
 			}
 			var k kind
-			if haveCmd && (!op.AnyKind || src == "outstanding") {
+			if fk, ok := kindByName[op.Force]; ok {
+				k = fk
+			} else if haveCmd && (!op.AnyKind || src == "outstanding") {
 				app := append(append([]int{}, kindsByCmd[viaCmd]...), genericIdx...)
 				k = kinds[app[op.Variant%len(app)]]
 			} else {
